@@ -1249,6 +1249,23 @@ func c03Exec(build func(x *c03Ctx), dir string) c03Result {
 		res.viol = append(res.viol, rep.Violation{Sig: "save-unreadable|first|" + c03ErrClass(why), Clause: "save-unreadable", What: "the independent reader cannot read the first save: " + why})
 		return res
 	}
+	// saving is an observation: a second save of the same, untouched document object must give the same body
+	resave := func(d *document.Document, first *pkgmodel.Node, which string) {
+		pk2, _, errS2 := c03SaveRead(d)
+		if errS2 != "" {
+			res.viol = append(res.viol, rep.Violation{Sig: "save-failed|second-save-of-" + which + "|" + c03ErrClass(errS2), Clause: "save-failed", What: "the " + which + " document cannot be saved a second time: " + errS2})
+			return
+		}
+		second, why2 := c03View(pk2)
+		if second == nil {
+			res.viol = append(res.viol, rep.Violation{Sig: "save-unreadable|second-save-of-" + which + "|" + c03ErrClass(why2), Clause: "save-unreadable", What: "the independent reader cannot read the second save of the " + which + " document: " + why2})
+			return
+		}
+		for _, df := range c03DiffBodies(first, second) {
+			res.viol = append(res.viol, rep.Violation{Sig: "resave-" + df.Kind + "|" + which + "|" + df.Path, Clause: "resave-" + df.Kind, What: fmt.Sprintf("the %s document, saved twice without any call in between, gives two different bodies, %s: %s", which, df.Path, df.Detail), Expect: df.Before, Got: df.After})
+		}
+	}
+	resave(x.doc, prev, "API-built")
 	res.key = c03Hash(pkgmodel.Canon(prev, nil))
 	res.nontriv = len(prev.Elems()) > 1 || (len(prev.Elems()) == 1 && prev.Elems()[0].Local != "sectPr")
 	cur := bytes1
@@ -1294,6 +1311,9 @@ func c03Exec(build func(x *c03Ctx), dir string) c03Result {
 			}
 			sort.Strings(ks)
 			outcome = append(outcome, fmt.Sprintf("c%d:%s", cyc, strings.Join(ks, "+")))
+		}
+		if cyc == 1 {
+			resave(d, next, "reopened")
 		}
 		prev, cur = next, nb
 	}
